@@ -336,8 +336,14 @@ func runSchemaCase(c *SCase) SObs {
 		for _, e := range topErrors(err) {
 			if se, ok := e.(*openapi3.SchemaError); ok && !pointerOK(val, se) {
 				if se.Value == nil && strings.HasPrefix(se.Reason, "cannot compile pattern") {
-					o.PtrBad = append(o.PtrBad, "uncompilable-pattern")
-					continue
+					// recorded finding: this error quotes no value - but its pointer still has to designate
+					// the string the pattern was applied to
+					if at, ok := jsonLookup(val, se.JSONPointer()); ok {
+						if _, isStr := at.(string); isStr {
+							o.PtrBad = append(o.PtrBad, "uncompilable-pattern")
+							continue
+						}
+					}
 				}
 				o.PtrBad = append(o.PtrBad, fmt.Sprintf("%s: field=%s pointer=/%s", mode, se.SchemaField, strings.Join(se.JSONPointer(), "/")))
 			}
